@@ -12,18 +12,17 @@ Context {S : Scalar}.
 Local Notation vec := (vec S).
 Local Notation crs := (crs S).
 
-(* spectral_radius<scale>(A, 0), one thread: emax = max_i s_i,
-   s_i = sum_j |a_ij|, times |inverse(dia)| when scale; dia = LAST entry with col == i of the
-   row; the variable `dia` is declared outside the row loop, so a row without diagonal entry
-   re-uses the diagonal of the previous row of the same thread; initially identity) *)
-Definition gersh_row (scale : bool) (i : nat) (r : row S) (dia : S) : S * S :=
-  let '(s, dia') := fold_left (fun (sd : S * S) e =>
-        (fst sd + sabs (snd e), if scale && Nat.eqb (fst e) i then snd e else snd sd)) r (s0, dia) in
-  (if scale then s * sabs (sinv dia') else s, dia').
+(* spectral_radius<scale>(A, 0), one thread (after /repo fix f082a42: `dia` is a local of the
+   row loop body, reset to the identity for EVERY row): emax = max_i s_i,
+   s_i = sum_j |a_ij|, times |inverse(dia_i)| when scale; dia_i = LAST entry with col == i of
+   row i, identity when the row has no diagonal entry *)
+Definition gersh_row (scale : bool) (i : nat) (r : row S) : S :=
+  let '(s, dia) := fold_left (fun (sd : S * S) e =>
+        (fst sd + sabs (snd e), if scale && Nat.eqb (fst e) i then snd e else snd sd)) r (s0, s1) in
+  if scale then s * sabs (sinv dia) else s.
 Definition gershgorin (scale : bool) (A : crs) : S :=
-  let '(emax, _) := fold_left (fun (ed : S * S) ir =>
-        let '(s, dia') := gersh_row scale (fst ir) (snd ir) (snd ed) in
-        (smax (fst ed) s, dia')) (indexed (rows A)) (s0, s1) in
+  let emax := fold_left (fun (em : S) ir => smax em (gersh_row scale (fst ir) (snd ir)))
+                        (indexed (rows A)) s0 in
   let radius := smax s0 emax in
   if sltb radius s0 then (s1 + s1) else radius.
 
